@@ -187,7 +187,10 @@ func main() {
 	}
 	pc, ok := props[prop]
 	if !ok {
-		fatal2("unknown or unclaimed property %q", prop)
+		if _, err := os.Stat(filepath.Join(root, "simtest", strings.ToLower(prop))); err != nil {
+			fatal2("unknown or unclaimed property %q", prop)
+		}
+		pc = propCfg{quick: q(400, 8), thorough: th(10 * time.Minute)}
 	}
 	seed := uint64(1)
 	if v := os.Getenv("VERIF_SEED"); v != "" {
